@@ -225,28 +225,32 @@ func C19(c *Ctx, r *report.Run) error {
 		}
 		d := docs[0]
 		py.Doc(d.id, d.value)
-		desc, err := l.Files.FindDescriptorByName(protoreflect.FullName(s.Files[0].Package + ".R"))
-		if err != nil {
-			return HarnessError("%v", err)
-		}
-		md := desc.(protoreflect.MessageDescriptor)
-		reqList, _ := model.Ptr(d.value, "/components/schemas/R/required")
-		required := map[string]bool{}
-		if rl, ok := reqList.([]any); ok {
-			for _, x := range rl {
-				if sname, ok := x.(string); ok {
-					required[sname] = true
+		for _, rc := range cases[s.Name] {
+			msgName := rc.Msg
+			if msgName == "" {
+				msgName = "R"
+			}
+			desc, err := l.Files.FindDescriptorByName(protoreflect.FullName(s.Files[0].Package + "." + msgName))
+			if err != nil {
+				return HarnessError("%v", err)
+			}
+			md := desc.(protoreflect.MessageDescriptor)
+			reqList, _ := model.Ptr(d.value, "/components/schemas/"+msgName+"/required")
+			required := map[string]bool{}
+			if rl, ok := reqList.([]any); ok {
+				for _, x := range rl {
+					if sname, ok := x.(string); ok {
+						required[sname] = true
+					}
 				}
 			}
-		}
-		for _, rc := range cases[s.Name] {
 			fd := md.Fields().ByName(protoreflect.Name(rc.Field))
 			fr := fieldRules(fd)
 			cell := fmt.Sprintf("%s,%s", s.Cell, rc.Label)
 			if rc.Card != "" {
 				cell += ",card=" + rc.Card
 			}
-			ptr := "/components/schemas/R/properties/" + fd.JSONName()
+			ptr := "/components/schemas/" + msgName + "/properties/" + fd.JSONName()
 			schema, ok := model.Ptr(d.value, ptr)
 			replay := map[string]any{"spec": s, "field": rc.Field, "rules": rc.Rules}
 			if !ok {
@@ -254,7 +258,8 @@ func C19(c *Ctx, r *report.Run) error {
 				continue
 			}
 			// required <=> required[]
-			if fr.GetRequired() != (required[fd.JSONName()] || required[string(fd.Name())]) {
+			// required[] must name the property key (the JSON name), which is what a JSON Schema validator looks up
+			if fr.GetRequired() != required[fd.JSONName()] {
 				r.Violate(cell+"#required", "required_mismatch", fmt.Sprintf("rule required=%v, schema required[] lists it: %v", fr.GetRequired(), required[fd.JSONName()]), replay)
 				r.Case(cell, "required_mismatch", true)
 			} else {
